@@ -45,6 +45,13 @@ def run_check(pid: str, tier: str, seed: int, program=None, quiet=False, write=T
                 usage.setdefault(k, set()).update(shapes)
         for n in getattr(mod, "TRUSTED_VALUE_PRIMITIVES", ()):
             usage[f"linalg.{n}"] = None  # handed on as a value: called by code this check does not follow, so every argument counts
+        # layout closures (ravel_pytree's unravel) applied to new values while this check's own scenarios were interpreted
+        if S.unravel_applied:
+            from .rules import dtype_census as _dc
+
+            rdc = chk.rule(f"R-{pid}-D", "pytree states with leaves of different dtypes: every unravel closure that is applied to a new value comes from an example whose leaves were cast to a "
+                           "common dtype (ravel_pytree's unravel casts each leaf back to its own dtype)", floor=1)
+            _dc.census_rules(chk, S, rdc)
         from .rules import backend_semantic as _bs
 
         cand = sorted(p for p in met if p.split(".", 1)[0] in _bs.MODULES)
